@@ -592,6 +592,10 @@ class ArrNormDomain(NormDomain):
             for x in args[0].data:
                 acc = it.binop(ast.Add(), acc, x, node)
             return acc
+        if args and isinstance(args[0], Arr) and dotted == 'numpy.square' and len(args) == 1:
+            return self._emap(lambda x: it.binop(ast.Mult(), x, x, node), args[0])
+        if dotted == 'numpy.square' and len(args) == 1 and self.rat(args[0]) is not None:
+            return it.binop(ast.Mult(), args[0], args[0], node)
         if args and isinstance(args[0], Arr) and dotted in ('numpy.sqrt', 'numpy.cos', 'numpy.sin', 'numpy.exp', 'numpy.abs'):
             return self._emap(lambda x: it.call_value(ExtRef(dotted), [x], {}, node, None), args[0])
         return NormDomain.call_ext(self, dotted, args, kwargs, node)
